@@ -37,6 +37,9 @@ func put(st *memory.Storage, t plumbing.ObjectType, enc func(o plumbing.EncodedO
 	return hh
 }
 
+// bytes of every blob ever stored
+var contentOf = map[plumbing.Hash]string{}
+
 // build nested tree from path->fent
 func buildTree(st *memory.Storage, files map[string]fent, prefix string) plumbing.Hash {
 	names := map[string]bool{}
@@ -75,6 +78,7 @@ func buildTree(st *memory.Storage, files map[string]fent, prefix string) plumbin
 					w.Write(f.data)
 					return w.Close()
 				})
+				contentOf[bh] = string(f.data)
 				entries = append(entries, object.TreeEntry{Name: n, Mode: f.mode, Hash: bh})
 			}
 		} else {
@@ -136,6 +140,7 @@ func runOne(seed int64, mode string) (msg string) {
 	base := time.Date(2020, 1, 1, 0, 0, 0, 0, time.UTC)
 	var prev plumbing.Hash
 	subSeen := false
+	everFaulted := false
 	seenSet := map[string]string{} // downstream view: path -> hash
 	for c := 0; c < 8; c++ {
 		for k := 0; k < 1+rng.Intn(4); k++ {
@@ -192,7 +197,26 @@ func runOne(seed int64, mode string) (msg string) {
 		}
 		changes := r1[items.DependencyTreeChanges].(object.Changes)
 		deps[items.DependencyTreeChanges] = changes
+		// fault: the old version of a changed file is still in the object store but cannot be read completely (its
+		// declared size is one byte more than its content)
+		faulted := false
+		if mode == "none" && !strict && !everFaulted && rng.Intn(6) == 0 {
+			for _, ch := range changes {
+				if h := ch.From.TreeEntry.Hash; ch.From.Name != "" && ch.From.TreeEntry.Mode != filemode.Submodule && !faulted {
+					if o, ok := st.Blobs[h]; ok {
+						if want, known := contentOf[h]; known && o.Size() == int64(len(want)) {
+							o.SetSize(o.Size() + 1)
+							faulted, everFaulted = true, true
+						}
+					}
+				}
+			}
+		}
 		r2, err := bc.Consume(deps)
+		if everFaulted && err != nil {
+			return "" // refused (now, or later when the unreadable blob is needed again): the run stops here, as Pipeline.Run would
+		}
+		_ = faulted
 		if strict {
 			mustErr, mayErr := false, false
 			for _, ch := range changes {
@@ -248,6 +272,13 @@ func runOne(seed int64, mode string) (msg string) {
 				}
 				if f, ok := files[e.Name]; ok && e == ch.To && !f.sub && string(cb.Data) != string(f.data) {
 					return fmt.Sprintf("c%d blob bytes differ for %s", c, e.Name)
+				}
+				// a successful Consume hands over the real bytes of every blob that is in the object store, old side included
+				if want, known := contentOf[e.TreeEntry.Hash]; known && e.TreeEntry.Mode != filemode.Submodule && string(cb.Data) != want {
+					if _, inStore := st.Blobs[e.TreeEntry.Hash]; inStore {
+						return fmt.Sprintf("c%d BlobCache succeeded but hands over %d bytes for %s (%s side), the blob has %d", c, len(cb.Data), e.Name,
+							map[bool]string{true: "new", false: "old"}[e == ch.To], len(want))
+					}
 				}
 			}
 		}
